@@ -380,10 +380,10 @@ def run(ctx, rep):
     for cfg in ctx.configs():
         nfix, ncopy, nguard, nvec, nal = run_config(ctx, rep, cfg)
         if cfg is None:
-            rep.floor("C09.R1", "fixed-extent functions", nfix, 13)
-            rep.floor("C09.R2", "variable-length copies", ncopy, 18)
+            rep.floor("C09.R1", "fixed-extent functions", nfix, 8)
+            rep.floor("C09.R2", "variable-length copies", ncopy, 10)
             rep.floor("C09.R2", "guarded partial key reads", nguard, 2)
             rep.floor("C09.R4", "vector accesses through caller pointers", nvec, 8)
-            rep.floor("C09.R7", "typed allocation sites", nal, 10)
+            rep.floor("C09.R7", "typed allocation sites", nal, 6)
         else:
             ctx.release(cfg)
